@@ -125,6 +125,15 @@ func (x *FnExec) call(fr *Frame, cc *ssa.CallCommon, instr ssa.Value, st *State,
 	}
 	x.curStatic = static
 	defer func() { x.curStatic = nil }()
+	if fr.top && x.top != nil && len(x.top.CallAsserts) > 0 {
+		x.callAsserts(fr, cc, args, st, g, pos)
+	}
+	// inferred effect contract (effects.go): the callee may read the wall clock as data
+	if x.top != nil && x.top.TrackClock {
+		if yes, why := x.E.clockEffectOfCall(cc); yes && !(cc.StaticCallee() != nil && isObservabilitySink(cc.StaticCallee()) && (instr == nil || unusedResult(instr.(ssa.Instruction)))) {
+			x.bumpGhostClock(st, g, why)
+		}
+	}
 	if strings.HasPrefix(key, "sync/atomic.") {
 		if r, ok := x.atomicIntrinsic(fr, key, cc, args, st, g); ok {
 			return r, g
@@ -187,6 +196,61 @@ func (x *FnExec) call(fr *Frame, cc *ssa.CallCommon, instr ssa.Value, st *State,
 	x.notes = append(x.notes, "call without contract havocs the heap: "+shortKey(key))
 	x.havocAll(st)
 	return x.freshResult(st, cc, sanitize(key)), g
+}
+
+// callAsserts: obligations attached to call sites of the function under verification (clause callassert).
+func (x *FnExec) callAsserts(fr *Frame, cc *ssa.CallCommon, args []Value, st *State, g *Term, pos token.Pos) {
+	for _, ca := range x.top.CallAsserts {
+		match := false
+		if sc := cc.StaticCallee(); sc != nil && sc.Name() == ca.Callee {
+			match = true
+		}
+		if cc.IsInvoke() && cc.Method.Name() == ca.Callee {
+			match = true
+		}
+		if !match && !cc.IsInvoke() {
+			for _, v := range fr.debug[ca.Callee] {
+				if v == cc.Value {
+					match = true
+				}
+			}
+		}
+		if !match {
+			continue
+		}
+		ev := x.specEnv(fr, st, x.entry, x.top)
+		var ats []types.Type
+		if cc.IsInvoke() {
+			ats = append(ats, cc.Value.Type())
+		}
+		for _, a := range cc.Args {
+			ats = append(ats, a.Type())
+		}
+		for i, a := range args {
+			if i < len(ats) {
+				ev.vars[fmt.Sprintf("arg%d", i)] = TV{a, ats[i]}
+			}
+		}
+		x.oblige("ASSERT", "at call of "+ca.Callee+": "+ca.Cl.Text, g, ev.evalBool(ca.Cl.E), pos)
+	}
+}
+
+// bumpGhostClock: ghost(wallclock, nil) takes an arbitrary new value (the callee may read the clock as data).
+func (x *FnExec) bumpGhostClock(st *State, g *Term, why string) {
+	gt := x.ghostTypes["wallclock"]
+	if gt == nil {
+		gt = types.NewNamed(types.NewTypeName(0, nil, "ghost_wallclock", nil), types.Typ[types.Int], nil)
+		x.ghostTypes["wallclock"] = gt
+	}
+	pl := &Place{kind: pkHeap, ref: x.refConst(0), obj: gt}
+	x.store(st, pl, x.tc.Fresh("wallclock", SInt))
+	note := "reads the wall clock as data: " + why
+	for _, n := range x.notes {
+		if n == note {
+			return
+		}
+	}
+	x.notes = append(x.notes, note)
 }
 
 func (x *FnExec) havocAll(st *State) {
